@@ -170,24 +170,41 @@ def modularityDirGiven {n} {α : Type} [DecidableEq α] (W : RMat n) (γ : Rat) 
   let s2 := 2 * total W
   fsum fun i => fsum fun j => if c i = c j then (Bm.get i j + Bm.get j i) / s2 else 0
 
-/-! ## spectral bisection skeleton of `modularity_und` / `modularity_dir` (`kci=None`)
+/-! ## spectral bisection of `modularity_und` / `modularity_dir` (`kci=None`)
 
-The eigen-solver and the Kernighan–Lin style sign flipping are an *oracle*: for a module it either says
-"no positive split" (`none`) or returns a ±1 assignment.  `recur` splits the module by the assignment
-unless one side is empty (`np.abs(np.sum(mod_asgn)) == n`), and appends leaves to `modules`. -/
+The eigen-solver and the Kernighan–Lin style sign flipping are an *oracle input*: one recorded decision
+per `recur` call, in call order — `none`: "no positive split" (`q ≤ 0`), `some signs`: the final ±1
+assignment over the positions of the module.  `recur` splits the module by the assignment unless one side
+is empty (`np.abs(np.sum(mod_asgn)) == n`), recurses into `mod1` then `mod2`, and appends leaves to `modules`. -/
 
-def bisect {n} (oracle : List (Fin n) → Option (Fin n → Bool)) : Nat → List (Fin n) → List (List (Fin n))
-  | 0, m => [m]
-  | fuel + 1, m =>
-    match oracle m with
-    | none => [m]
-    | some asg =>
-      let a := m.filter asg
-      let b := m.filter fun i => !asg i
-      if a.isEmpty || b.isEmpty then [m] else bisect oracle fuel a ++ bisect oracle fuel b
+def splitBy {n} (m : List (Fin n)) (sg : List Bool) (side : Bool) : List (Fin n) :=
+  (m.zip sg).filterMap fun p => if p.2 == side then some p.1 else none
+
+def bisectL {n} : Nat → List (Fin n) → List (Option (List Bool)) →
+    Except Err (List (List (Fin n)) × List (Option (List Bool)))
+  | 0, _, _ => .error .outOfDraws
+  | _ + 1, _, [] => .error .outOfDraws
+  | _ + 1, m, none :: ds => .ok ([m], ds)
+  | fuel + 1, m, some sg :: ds =>
+    if sg.length ≠ m.length then .error .badDraw else
+    let a := splitBy m sg true
+    let b := splitBy m sg false
+    if a.isEmpty || b.isEmpty then .ok ([m], ds) else do
+      let (la, ds1) ← bisectL fuel a ds
+      let (lb, ds2) ← bisectL fuel b ds1
+      .ok (la ++ lb, ds2)
 
 /-- `ls2ci`: label of a node = 1 + index of the (first) module that lists it -/
 def ls2ci {n} (ls : List (List (Fin n))) (i : Fin n) : Nat := ls.findIdx (fun l => l.contains i) + 1
+
+/-- `modularity_und(A, gamma)` / `modularity_dir(A, gamma)` without `kci`: bisect from one big module, `ls2ci`,
+then the same `q` expression as with a given partition.  Result: labels, `q`, unused decisions. -/
+def spectralRun {n} (dir : Bool) (W : RMat n) (γ : Rat) (ds : List (Option (List Bool))) :
+    Except Err ((Fin n → Nat) × Rat × Nat) := do
+  if total W = 0 then throw .param
+  let (ls, rest) ← bisectL (n + 1) (List.finRange n) ds
+  let ci := ls2ci ls
+  return (ci, if dir then modularityDirGiven W γ ci else modularityUndGiven W γ ci, rest.length)
 
 /-! ## the generic visiting pass -/
 
@@ -197,6 +214,17 @@ structure Kern (σ : Type) (n : Nat) where
   /-- coded bookkeeping update for the move `u : ma → mb` -/
   move : σ → Fin n → Fin n → Fin n → σ
 
+/-- Validation of a recorded run: `guide = some l` lists the moves bct made, as `(sweep number, node, target slot)`;
+the model then *follows* bct's choice at each visited node and checks that it was admissible in exact
+arithmetic (a maximiser of the exact gain, above the threshold; no move only if no gain exceeds the
+threshold).  `cert` counts followed moves whose target is not the first maximiser (certified exact ties),
+`bad` records an inadmissible step.  `guide = none`: plain replay with first-maximum tie breaking. -/
+structure GState where
+  guide : Option (List (Nat × Nat × Nat)) := none
+  passNo : Nat := 0
+  cert : Nat := 0
+  bad : Bool := false
+
 structure PSt (σ : Type) (n : Nat) where
   st : σ
   m : Lab n
@@ -204,6 +232,7 @@ structure PSt (σ : Type) (n : Nat) where
   ties : Nat
   /-- the recorded draws ran out before the routine stopped (reported as `error=out-of-draws`) -/
   starved : Option Err := none
+  g : GState := {}
 
 /-- acceptance threshold `1e-10` -/
 def thr : Rat := 1 / 10000000000
@@ -221,18 +250,41 @@ def argmaxFirst {n} (f : Fin n → Rat) (lim : Nat) : Option (Fin n × Rat) :=
 def gainVec {σ n} (K : Kern σ n) (st : σ) (u ma : Fin n) : Fin n → Rat :=
   fun t => if t = ma then 0 else K.dq st u ma t
 
+/-- where the visited node goes (`none`: it stays) given its gain vector `f`, and the updated validation state -/
+def chooseWith {n} (f : Fin n → Rat) (lim : Nat) (g : GState) (u : Nat) : Option (Fin n) × GState :=
+  match argmaxFirst f lim with
+  | none => (none, g)
+  | some (mb0, mx) =>
+    match g.guide with
+    | none => if thr < mx then (some mb0, g) else (none, g)
+    | some [] => (none, { g with bad := g.bad || decide (thr < mx) })
+    | some ((p, un, tn) :: rest) =>
+      if p = g.passNo ∧ un = u then
+        if h : tn < n then
+          if tn < lim ∧ thr < f ⟨tn, h⟩ ∧ f ⟨tn, h⟩ = mx then
+            (some ⟨tn, h⟩, { g with guide := some rest, cert := g.cert + (if (⟨tn, h⟩ : Fin n) = mb0 then 0 else 1) })
+          else (none, { g with bad := true })
+        else (none, { g with bad := true })
+      else (none, { g with bad := g.bad || decide (thr < mx) })
+
+def choose {σ n} (K : Kern σ n) (lim : Nat) (x : PSt σ n) (u : Fin n) : Option (Fin n) × GState :=
+  let dq : RVec n := Vector.ofFn (gainVec K x.st u x.m[u])
+  chooseWith (fun t : Fin n => dq[t]) lim x.g u.val
+
+/-- `1` if the maximum of the gain vector is attained more than once (diagnostics only) -/
+def tieFlag {σ n} (K : Kern σ n) (lim : Nat) (x : PSt σ n) (u : Fin n) : Nat :=
+  let dq : RVec n := Vector.ofFn (gainVec K x.st u x.m[u])
+  match argmaxFirst (fun t : Fin n => dq[t]) lim with
+  | none => 0
+  | some (_, mx) =>
+    if ((List.finRange n).filter fun t : Fin n => decide (t.val < lim) && dq[t] == mx).length > 1 then 1 else 0
+
 def visit {σ n} (K : Kern σ n) (lim : Nat) (x : PSt σ n) (u : Fin n) : PSt σ n × Bool :=
-  let ma := x.m[u]
-  let dq : RVec n := Vector.ofFn (gainVec K x.st u ma)
-  match argmaxFirst (fun t => dq[t]) lim with
-  | some (mb, mx) =>
-    if thr < mx then
-      let nt := ((List.finRange n).filter fun t => decide (t.val < lim) && dq[t] == mx).length
-      let x' : PSt σ n := { st := K.move x.st u ma mb, m := x.m.set u mb, moves := x.moves + 1,
-                            ties := x.ties + (if nt > 1 then 1 else 0), starved := x.starved }
-      (x', true)
-    else (x, false)
-  | none => (x, false)
+  match choose K lim x u with
+  | (some mb, g) =>
+    ({ st := K.move x.st u x.m[u] mb, m := x.m.set u mb, moves := x.moves + 1,
+       ties := x.ties + tieFlag K lim x u, starved := x.starved, g := g }, true)
+  | (none, g) => ({ x with g := g }, false)
 
 /-- one `for u in rng.permutation(n)` sweep; the flag tells whether any node moved -/
 def pass {σ n} (K : Kern σ n) (lim : Nat) (x : PSt σ n) (us : List (Fin n)) : PSt σ n × Bool :=
@@ -252,7 +304,7 @@ def passes {σ n} (K : Kern σ n) (lim nh : Nat) : Nat → PSt σ n → List Nat
     match takePerm n nh ds with
     | .error e => .ok ({ x with starved := some e }, [])
     | .ok (us, rest) =>
-      let r := pass K lim x us
+      let r := pass K lim { x with g := { x.g with passNo := x.g.passNo + 1 } } us
       if r.2 then passes K lim nh fuel r.1 rest else .ok (r.1, rest)
 
 /-! ## the four kernels -/
@@ -396,26 +448,27 @@ structure Out (n : Nat) where
   ties : Nat
   left : Nat
   starved : Option Err := none
+  g : GState := {}
 
-def pst0 {σ n} (st : σ) (m : Lab n) : PSt σ n := { st := st, m := m, moves := 0, ties := 0 }
+def pst0 {σ n} (st : σ) (m : Lab n) (g : GState := {}) : PSt σ n := { st := st, m := m, moves := 0, ties := 0, g := g }
 
 /-! ## fine-tuning routines (single level, start partition given) -/
 
-def finetuneUnd {n} (W : RMat n) (γ : Rat) (c0 : Fin n → Int) (ds : List Nat) : Except Err (Out n) := do
+def finetuneUnd {n} (W : RMat n) (γ : Rat) (c0 : Fin n → Int) (ds : List Nat) (g0 : GState := {}) : Except Err (Out n) := do
   if total W = 0 then throw .param
   let c ← toLab c0
-  let (x, rest) ← passes (undKern n) n n (ds.length + 1) (pst0 (undInitFine W γ c) c) ds
+  let (x, rest) ← passes (undKern n) n n (ds.length + 1) (pst0 (undInitFine W γ c) c g0) ds
   let c' ← toLab (labFn x.m)
   let q := qTraceDot (aggLower W c') (total W) γ
-  return { levels := [(c', q)], moves := x.moves, ties := x.ties, left := rest.length, starved := x.starved }
+  return { levels := [(c', q)], moves := x.moves, ties := x.ties, left := rest.length, starved := x.starved, g := x.g }
 
-def finetuneDir {n} (W : RMat n) (γ : Rat) (c0 : Fin n → Int) (ds : List Nat) : Except Err (Out n) := do
+def finetuneDir {n} (W : RMat n) (γ : Rat) (c0 : Fin n → Int) (ds : List Nat) (g0 : GState := {}) : Except Err (Out n) := do
   if total W = 0 then throw .param
   let c ← toLab c0
-  let (x, rest) ← passes (dirKern n) n n (ds.length + 1) (pst0 (dirInitFine W γ c) c) ds
+  let (x, rest) ← passes (dirKern n) n n (ds.length + 1) (pst0 (dirInitFine W γ c) c g0) ds
   let c' ← toLab (labFn x.m)
   let q := qTraceDot (aggFull W c') (total W) γ
-  return { levels := [(c', q)], moves := x.moves, ties := x.ties, left := rest.length, starved := x.starved }
+  return { levels := [(c', q)], moves := x.moves, ties := x.ties, left := rest.length, starved := x.starved, g := x.g }
 
 /-- `d0·Σq0 − d1·Σq1` of the signed fine-tuners (`Kn0`, `Kn1` are the initial node strengths) -/
 def qSignOuter {n} (st : SignSt n) (c : Lab n) : Rat :=
@@ -426,12 +479,12 @@ def modularityUndSignGiven {n} (t : QType) (W : RMat n) (c0 : Fin n → Int) : E
   let c ← toLab c0
   return (c, qSignOuter (signInitFine t W 1 c) c)
 
-def finetuneSign {n} (t : QType) (W : RMat n) (γ : Rat) (c0 : Fin n → Int) (ds : List Nat) : Except Err (Out n) := do
+def finetuneSign {n} (t : QType) (W : RMat n) (γ : Rat) (c0 : Fin n → Int) (ds : List Nat) (g0 : GState := {}) : Except Err (Out n) := do
   let c ← toLab c0
   let st0 := signInitFine t W γ c
-  let (x, rest) ← passes (signKern n) n n (ds.length + 1) (pst0 st0 c) ds
+  let (x, rest) ← passes (signKern n) n n (ds.length + 1) (pst0 st0 c g0) ds
   let c' ← toLab (labFn x.m)
-  return { levels := [(c', qSignOuter st0 c')], moves := x.moves, ties := x.ties, left := rest.length, starved := x.starved }
+  return { levels := [(c', qSignOuter st0 c')], moves := x.moves, ties := x.ties, left := rest.length, starved := x.starved, g := x.g }
 
 /-- one node of `modularity_probtune_und_sign`: `r = rng.random_sample() < p`; random target or best gain -/
 def probVisit {n} (p : Rat) (x : PSt (SignSt n) n) (u : Fin n) (ds : List Nat) : Except Err (PSt (SignSt n) n × List Nat) :=
@@ -445,7 +498,13 @@ def probVisit {n} (p : Rat) (x : PSt (SignSt n) n) (u : Fin n) (ds : List Nat) :
       | r :: ds =>
         if h : r < n then
           let mb : Fin n := ⟨r, h⟩
-          .ok ({ x with st := (signKern n).move x.st u ma mb, m := x.m.set u mb, moves := x.moves + 1 }, ds)
+          -- a random move is a move bct made: when validating it must be the next recorded one
+          let g' : GState := match x.g.guide with
+            | none => x.g
+            | some [] => { x.g with bad := true }
+            | some ((p, un, tn) :: rest) =>
+              if p = x.g.passNo ∧ un = u.val ∧ tn = r then { x.g with guide := some rest } else { x.g with bad := true }
+          .ok ({ x with st := (signKern n).move x.st u ma mb, m := x.m.set u mb, moves := x.moves + 1, g := g' }, ds)
         else .error .badDraw
     else .ok ((visit (signKern n) n x u).1, ds)
 
@@ -455,13 +514,13 @@ def probLoop {n} (p : Rat) : List (Fin n) → PSt (SignSt n) n → List Nat → 
     let (x', ds') ← probVisit p x u ds
     probLoop p us x' ds'
 
-def probtuneSign {n} (t : QType) (W : RMat n) (γ p : Rat) (c0 : Fin n → Int) (ds : List Nat) : Except Err (Out n) := do
+def probtuneSign {n} (t : QType) (W : RMat n) (γ p : Rat) (c0 : Fin n → Int) (ds : List Nat) (g0 : GState := {}) : Except Err (Out n) := do
   let c ← toLab c0
   let st0 := signInitFine t W γ c
   let (us, rest) ← takePerm n n ds
-  let (x, rest) ← probLoop p us (pst0 st0 c) rest
+  let (x, rest) ← probLoop p us (pst0 st0 c { g0 with passNo := 1 }) rest
   let c' ← toLab (labFn x.m)
-  return { levels := [(c', qSignOuter st0 c')], moves := x.moves, ties := x.ties, left := rest.length, starved := x.starved }
+  return { levels := [(c', qSignOuter st0 c')], moves := x.moves, ties := x.ties, left := rest.length, starved := x.starved, g := x.g }
 
 /-! ## Louvain routines (levels) -/
 
@@ -480,29 +539,30 @@ structure LvSt (n : Nat) where
   moves : Nat
   ties : Nat
   starved : Option Err := none
+  g : GState := {}
 
 /-- `modularity_louvain_und`: result = all levels `0..h-1` (level 0 = singletons with the sentinel `q = −1`);
 `hierarchy=True` returns levels `1..h-1`, the plain call returns level `h-1`. -/
 def louvainUndLoop {n} (s γ : Rat) : Nat → RMat n → LvSt n → List Nat → Except Err (LvSt n × List Nat)
   | 0, _, _, _ => .error .outOfDraws
   | fuel + 1, W, L, ds => do
-    let (x, rest) ← passes (undKern n) L.nh L.nh (ds.length + 1) (pst0 (undInitLevel W s γ) (idLab n)) ds
-    if x.starved.isSome then return ({ L with moves := L.moves + x.moves, ties := L.ties + x.ties, starved := x.starved }, rest)
+    let (x, rest) ← passes (undKern n) L.nh L.nh (ds.length + 1) (pst0 (undInitLevel W s γ) (idLab n) L.g) ds
+    if x.starved.isSome then return ({ L with moves := L.moves + x.moves, ties := L.ties + x.ties, starved := x.starved, g := x.g }, rest)
     let m' ← toLab (labFn x.m)
     let ci' := compose L.ci m'
     let W1 := aggUpper W m'
     let q := qTraceDot W1 s γ
     let L' : LvSt n := { nh := nextSize m' L.nh, ci := ci', qprev := q, acc := (ci', q) :: L.acc,
-                         moves := L.moves + x.moves, ties := L.ties + x.ties }
-    if q - L.qprev < thr then .ok ({ L with moves := L'.moves, ties := L'.ties }, rest)
+                         moves := L.moves + x.moves, ties := L.ties + x.ties, g := x.g }
+    if q - L.qprev < thr then .ok ({ L with moves := L'.moves, ties := L'.ties, g := x.g }, rest)
     else louvainUndLoop s γ fuel W1 L' rest
 
-def lv0 (n : Nat) : LvSt n := { nh := n, ci := idLab n, qprev := -1, acc := [(idLab n, -1)], moves := 0, ties := 0 }
+def lv0 (n : Nat) (g : GState := {}) : LvSt n := { nh := n, ci := idLab n, qprev := -1, acc := [(idLab n, -1)], moves := 0, ties := 0, g := g }
 
-def louvainUnd {n} (W : RMat n) (γ : Rat) (ds : List Nat) : Except Err (Out n) := do
+def louvainUnd {n} (W : RMat n) (γ : Rat) (ds : List Nat) (g0 : GState := {}) : Except Err (Out n) := do
   if total W = 0 then throw .param
-  let (L, rest) ← louvainUndLoop (total W) γ (ds.length + 1) W (lv0 n) ds
-  return { levels := L.acc.reverse, moves := L.moves, ties := L.ties, left := rest.length, starved := L.starved }
+  let (L, rest) ← louvainUndLoop (total W) γ (ds.length + 1) W (lv0 n g0) ds
+  return { levels := L.acc.reverse, moves := L.moves, ties := L.ties, left := rest.length, starved := L.starved, g := L.g }
 
 /-- labels of the first `nh` nodes, the others pushed above every slot (so that ranks of the first `nh`
 are computed among themselves, as `np.unique(m)` on the length-`nh` vector does) -/
@@ -518,22 +578,22 @@ reads the leading corner of the original matrix with full-length strength vector
 def louvainDirLoop {n} (W : RMat n) (s γ : Rat) : Nat → LvSt n → List Nat → Except Err (LvSt n × List Nat)
   | 0, _, _ => .error .outOfDraws
   | fuel + 1, L, ds => do
-    let (x, rest) ← passes (dirKern n) n L.nh (ds.length + 1) (pst0 (dirInitLevel W s γ) (idLab n)) ds
-    if x.starved.isSome then return ({ L with moves := L.moves + x.moves, ties := L.ties + x.ties, starved := x.starved }, rest)
+    let (x, rest) ← passes (dirKern n) n L.nh (ds.length + 1) (pst0 (dirInitLevel W s γ) (idLab n) L.g) ds
+    if x.starved.isSome then return ({ L with moves := L.moves + x.moves, ties := L.ties + x.ties, starved := x.starved, g := x.g }, rest)
     let m' ← toLab (labFnA x.m L.nh)
     let ci' := compose L.ci m'
     let W1 := aggA W m' L.nh
     let q := qTraceDot W1 s γ
     let nh' := ((List.finRange n).filter fun j => decide (j.val < L.nh) && isFirst (labFnA x.m L.nh) j).length
     let L' : LvSt n := { nh := nh', ci := ci', qprev := q, acc := (ci', q) :: L.acc,
-                         moves := L.moves + x.moves, ties := L.ties + x.ties }
-    if q - L.qprev < thr then .ok ({ L with moves := L'.moves, ties := L'.ties }, rest)
+                         moves := L.moves + x.moves, ties := L.ties + x.ties, g := x.g }
+    if q - L.qprev < thr then .ok ({ L with moves := L'.moves, ties := L'.ties, g := x.g }, rest)
     else louvainDirLoop W s γ fuel L' rest
 
-def louvainDir {n} (W : RMat n) (γ : Rat) (ds : List Nat) : Except Err (Out n) := do
+def louvainDir {n} (W : RMat n) (γ : Rat) (ds : List Nat) (g0 : GState := {}) : Except Err (Out n) := do
   if total W = 0 then throw .param
-  let (L, rest) ← louvainDirLoop W (total W) γ (ds.length + 1) (lv0 n) ds
-  return { levels := L.acc.reverse, moves := L.moves, ties := L.ties, left := rest.length, starved := L.starved }
+  let (L, rest) ← louvainDirLoop W (total W) γ (ds.length + 1) (lv0 n g0) ds
+  return { levels := L.acc.reverse, moves := L.moves, ties := L.ties, left := rest.length, starved := L.starved, g := L.g }
 
 /-- `q[h] = d0·(tr W0 − γ ΣW0W0/s0) − d1·(tr W1 − γ ΣW1W1/s1)` -/
 def qSignTraceDot {n} (W0 W1 : RMat n) (s0 s1 d0 d1 γ : Rat) : Rat :=
@@ -544,25 +604,25 @@ def louvainSignLoop {n} (s0 s1 d0 d1 γ : Rat) : Nat → RMat n → RMat n → L
   | 0, _, _, _, _, _ => .error .outOfDraws
   | fuel + 1, W0, W1, L, qcur, ds =>
     if thr < qcur - L.qprev then do
-      let (x, rest) ← passes (signKern n) L.nh L.nh (ds.length + 1) (pst0 (signInitLevel W0 W1 s0 s1 d0 d1 γ) (idLab n)) ds
-      if x.starved.isSome then return ({ L with moves := L.moves + x.moves, ties := L.ties + x.ties, starved := x.starved }, rest)
+      let (x, rest) ← passes (signKern n) L.nh L.nh (ds.length + 1) (pst0 (signInitLevel W0 W1 s0 s1 d0 d1 γ) (idLab n) L.g) ds
+      if x.starved.isSome then return ({ L with moves := L.moves + x.moves, ties := L.ties + x.ties, starved := x.starved, g := x.g }, rest)
       let m' ← toLab (labFn x.m)
       let ci' := compose L.ci m'
       let W0' := aggUpper W0 m'
       let W1' := aggUpper W1 m'
       let q := qSignTraceDot W0' W1' s0 s1 d0 d1 γ
       let L' : LvSt n := { nh := nextSize m' L.nh, ci := ci', qprev := qcur, acc := (ci', q) :: L.acc,
-                           moves := L.moves + x.moves, ties := L.ties + x.ties }
+                           moves := L.moves + x.moves, ties := L.ties + x.ties, g := x.g }
       louvainSignLoop s0 s1 d0 d1 γ fuel W0' W1' L' q rest
     else .ok (L, ds)
 
-def louvainSign {n} (t : QType) (W : RMat n) (γ : Rat) (ds : List Nat) : Except Err (Out n) := do
+def louvainSign {n} (t : QType) (W : RMat n) (γ : Rat) (ds : List Nat) (g0 : GState := {}) : Except Err (Out n) := do
   let W0 := posPart W; let W1 := negPart W
   let s0 := total W0; let s1 := total W1
   let d := scales t s0 s1
-  let L0 : LvSt n := { nh := n, ci := idLab n, qprev := -1, acc := [(idLab n, 0)], moves := 0, ties := 0 }
+  let L0 : LvSt n := { nh := n, ci := idLab n, qprev := -1, acc := [(idLab n, 0)], moves := 0, ties := 0, g := g0 }
   let (L, rest) ← louvainSignLoop (adj s0) (adj s1) d.1 d.2 γ (ds.length + 1) W0 W1 L0 0 ds
-  return { levels := L.acc.reverse, moves := L.moves, ties := L.ties, left := rest.length, starved := L.starved }
+  return { levels := L.acc.reverse, moves := L.moves, ties := L.ties, left := rest.length, starved := L.starved, g := L.g }
 
 /-! ## community_louvain -/
 
@@ -596,29 +656,29 @@ def clLoop {n} : Nat → RMat n → Lab n → LvSt n → Option Rat → Rat → 
   | 0, _, _, _, _, _, _ => .error .outOfDraws
   | fuel + 1, B, Mb, L, q0, q, ds =>
     if (match q0 with | none => true | some q0 => decide (thr < q - q0)) then do
-      let (x, rest) ← passes (objKern n) L.nh L.nh (ds.length + 1) (pst0 (objInit B Mb) Mb) ds
-      if x.starved.isSome then return ({ L with moves := L.moves + x.moves, ties := L.ties + x.ties, starved := x.starved }, q, rest)
+      let (x, rest) ← passes (objKern n) L.nh L.nh (ds.length + 1) (pst0 (objInit B Mb) Mb L.g) ds
+      if x.starved.isSome then return ({ L with moves := L.moves + x.moves, ties := L.ties + x.ties, starved := x.starved, g := x.g }, q, rest)
       let m' ← toLab (labFn x.m)
       let ci' := compose L.ci m'
       let B1 := aggUpper B m'
       let L' : LvSt n := { nh := nextSize m' L.nh, ci := ci', qprev := q, acc := (ci', trace B1) :: L.acc,
-                           moves := L.moves + x.moves, ties := L.ties + x.ties }
+                           moves := L.moves + x.moves, ties := L.ties + x.ties, g := x.g }
       clLoop fuel B1 (idLab n) L' (some q) (trace B1) rest
     else .ok (L, q, ds)
 
-def communityLouvain {n} (W : RMat n) (γ : Rat) (obj : Objective n) (c0 : Fin n → Int) (ds : List Nat) : Except Err (Out n) := do
+def communityLouvain {n} (W : RMat n) (γ : Rat) (obj : Objective n) (c0 : Fin n → Int) (ds : List Nat) (g0 : GState := {}) : Except Err (Out n) := do
   let s := total W
   if s = 0 then throw .param
   if obj.renorm && total (posPart W) = 0 then throw .param
   let c ← toLab c0
   let B := objMatrix W γ obj
   let q := Qobj B (fun i => c[i]) / s
-  let L0 : LvSt n := { nh := n, ci := idLab n, qprev := q, acc := [], moves := 0, ties := 0 }
+  let L0 : LvSt n := { nh := n, ci := idLab n, qprev := q, acc := [], moves := 0, ties := 0, g := g0 }
   let (L, qf, rest) ← clLoop (ds.length + 1) B c L0 none q ds
   let qret := if obj.renorm then qf else qf / s
   match L.acc with
-  | [] => return { levels := [], moves := L.moves, ties := L.ties, left := rest.length, starved := some (L.starved.getD .protocol) }
-  | (ci, _) :: _ => return { levels := [(ci, qret)], moves := L.moves, ties := L.ties, left := rest.length, starved := L.starved }
+  | [] => return { levels := [], moves := L.moves, ties := L.ties, left := rest.length, starved := some (L.starved.getD .protocol), g := L.g }
+  | (ci, _) :: _ => return { levels := [(ci, qret)], moves := L.moves, ties := L.ties, left := rest.length, starved := L.starved, g := L.g }
 
 /-! ## driver -/
 
@@ -654,9 +714,12 @@ def showLab {n} (c : Lab n) : String :=
 
 def showOut {n} (o : Out n) : String :=
   if let some e := o.starved then s!"error={e.str} moves={o.moves} ties={o.ties}" else
+  -- validating a recorded run: every recorded move must have been followed and found admissible
+  if o.g.bad || (match o.g.guide with | some (_ :: _) => true | _ => false) then
+    s!"error=inadmissible moves={o.moves} ties={o.ties} cert={o.g.cert}" else
   let ls := "|".intercalate (o.levels.map fun l => showLab l.1)
   let qs := "|".intercalate (o.levels.map fun l => showRat l.2)
-  s!"levels={ls} q={qs} moves={o.moves} ties={o.ties} left={o.left}"
+  s!"levels={ls} q={qs} moves={o.moves} ties={o.ties} left={o.left} cert={o.g.cert}"
 
 def showRes {n} : Except Err (Out n) → String
   | .ok o => showOut o
@@ -706,6 +769,21 @@ def qOp {n} (kind routine : String) (W : RMat n) (γ : Rat) (c0 : Fin n → Int)
     | _ => none)
   some s!"relabel={showLab c} k={numLabels c0} qdef={showRat qdef} qcode={showRat qcode}"
 
+/-- `p:u:t,p:u:t,…` — the moves bct made: sweep number, node, target slot -/
+def parseGuide (s : String) : Option (List (Nat × Nat × Nat)) :=
+  if s == "-" || s == "" then some [] else
+  (s.splitOn ",").mapM fun tok => match tok.splitOn ":" with
+    | [a, b, c] => do some ((← a.toNat?), (← b.toNat?), (← c.toNat?))
+    | _ => none
+
+/-- `L` = leaf, or a string of `+`/`-` = the ±1 assignment over the module's positions -/
+def parseOracle (s : String) : Option (List (Option (List Bool))) :=
+  if s == "-" || s == "" then some [] else
+  (s.splitOn ",").mapM fun tok =>
+    if tok == "L" then some none
+    else if tok.toList.all (fun ch => ch == '+' || ch == '-') then some (some (tok.toList.map (· == '+')))
+    else none
+
 def step (line : String) : String :=
   let (op, kv) := parseLine line
   let res : Option String := do
@@ -722,28 +800,38 @@ def step (line : String) : String :=
       | none => some none)
     if op == "q" then
       qOp (← lookup kv "kind") (← lookup kv "routine") W γ c0 opt Bc
+    else if op == "spectral" then
+      let dir ← (match lookup kv "kind" with | some "dir" => some true | some "und" => some false | _ => none)
+      let orc ← parseOracle (← lookup kv "oracle")
+      match spectralRun dir W γ orc with
+      | .error e => some s!"error={e.str}"
+      | .ok (ci, q, left) =>
+        some s!"ci={",".intercalate ((List.finRange n).map fun i => toString (ci i))} q={showRat q} left={left}"
     else
       let ds ← parseNats (← lookup kv "draws")
+      let g0 : GState ← (match lookup kv "guide" with
+        | some s => (parseGuide s).map fun l => ({ guide := some l } : GState)
+        | none => some {})
       match op with
-      | "finetune_und" => some (showRes (finetuneUnd W γ c0 ds))
-      | "finetune_dir" => some (showRes (finetuneDir W γ c0 ds))
-      | "louvain_und" => some (showRes (louvainUnd W γ ds))
-      | "louvain_dir" => some (showRes (louvainDir W γ ds))
+      | "finetune_und" => some (showRes (finetuneUnd W γ c0 ds g0))
+      | "finetune_dir" => some (showRes (finetuneDir W γ c0 ds g0))
+      | "louvain_und" => some (showRes (louvainUnd W γ ds g0))
+      | "louvain_dir" => some (showRes (louvainDir W γ ds g0))
       | "finetune_sign" => do
         let t ← QType.ofString (← opt)
-        some (showRes (finetuneSign t W γ c0 ds))
+        some (showRes (finetuneSign t W γ c0 ds g0))
       | "probtune_sign" => do
         let t ← QType.ofString (← opt)
         let p ← parseRat (← lookup kv "p")
-        some (showRes (probtuneSign t W γ p c0 ds))
+        some (showRes (probtuneSign t W γ p c0 ds g0))
       | "louvain_sign" => do
         let t ← QType.ofString (← opt)
-        some (showRes (louvainSign t W γ ds))
+        some (showRes (louvainSign t W γ ds g0))
       | "community_louvain" => do
         let obj : Objective n ← (match (← opt) with
           | "modularity" => some .modularity | "potts" => some .potts | "negative_sym" => some .negSym
           | "negative_asym" => some .negAsym | "custom" => Bc.map .custom | _ => none)
-        some (showRes (communityLouvain W γ obj c0 ds))
+        some (showRes (communityLouvain W γ obj c0 ds g0))
       | _ => none
   res.getD "error=protocol"
 
